@@ -10,6 +10,7 @@ from contextlib import contextmanager
 # noinspection PyProtectedMember
 from dataclasses import _FIELDS  # type: ignore
 from dataclasses import MISSING, Field, is_dataclass
+from dataclasses import field as dataclass_field
 from functools import lru_cache
 
 try:
@@ -259,6 +260,15 @@ class CodeBuilder:
                     d[name] = field
                 else:
                     d.pop(name, None)
+                    if name not in self.namespace:
+                        # re-annotated without a value: dataclasses take the
+                        # default from the attribute found along the MRO
+                        default = getattr(self.cls, name, MISSING)
+                        if not (
+                            default is MISSING
+                            or isinstance(default, types.MemberDescriptorType)
+                        ):
+                            d[name] = dataclass_field(default=default)
         return d
 
     @property
